@@ -292,14 +292,17 @@ static void ha_build(void) { int n = 0; const char *nm[] = {"get", "getstr", "pu
 
 /* =============================================================== qlog (C14 only) */
 static char log_path[600];
-static void *lg_make(int st, int ts) { (void)st; return qlog(log_path, 0600, 0, ts ? QLOG_OPT_THREADSAFE : 0); }
+static int lg_have_full;
+static void *lg_make(int st, int ts) { return qlog(st == 1 ? "/dev/full" : log_path, 0, 0, (ts ? QLOG_OPT_THREADSAFE : 0) | (st == 2 ? QLOG_OPT_FLUSH : 0)); }
 static void lg_digest(void *c, char *out) { qlog_t *l = c; sprintf(out, "fp=%d", l->fp != NULL); }
 static void lg_destroy(void *c) { ((qlog_t *)c)->free(c); }
 static void *lg_mutex(void *c) { return ((qlog_t *)c)->qmutex; }
-static void lg_op(void *c, int a, int b, res_t *r) { qlog_t *l = c; (void)b; switch (a) { case 0: rb(r, l->write(l, "line")); break; case 1: rb(r, l->writef(l, "line %d", 3)); break; case 2: rb(r, l->duplicate(l, devnull, true)); break; case 3: l->flush(l); rb(r, 1); break; case 4: l->duplicate(l, devnull, false); rb(r, l->write(l, "dup")); break; } }
+static void lg_op(void *c, int a, int b, res_t *r) { qlog_t *l = c; (void)b; switch (a) { case 0: rb(r, l->write(l, "line")); break; case 1: rb(r, l->writef(l, "line %d", 3)); break; case 2: rb(r, l->duplicate(l, devnull, true)); break; case 3: l->flush(l); rb(r, 1); break; case 4: l->duplicate(l, devnull, false); rb(r, l->write(l, "dup")); break;
+    case 5: { static char big[70000]; if (!big[0]) { memset(big, 'x', sizeof big - 1); } rb(r, l->write(l, big)); break; }      /* larger than the stdio buffer: on /dev/full the write fails inside the call */
+    case 6: { static char big[70000]; if (!big[0]) { memset(big, 'y', sizeof big - 1); } rb(r, l->writef(l, "%s", big)); break; } } }
 static void lg_suffix(void *c, char *out) { qlog_t *l = c; sprintf(out, "%d", l->write(l, "suffix")); }
-static fop_t LG_OPS[8]; static int LG_NOPS;
-static void lg_build(void) { int n = 0; const char *nm[] = {"write", "writef", "duplicate", "flush", "duplicate+write"}; const char *fn[] = {"qlog_write", "qlog_writef", "qlog_duplicate", "qlog_flush", "qlog_write"}; for (int i = 0; i < 5; i++) ADD(LG_OPS, nm[i], fn[i], lg_op, i, 0); LG_NOPS = n; }
+static fop_t LG_OPS[12]; static int LG_NOPS;
+static void lg_build(void) { int n = 0; const char *nm[] = {"write", "writef", "duplicate", "flush", "duplicate+write", "write(64KiB)", "writef(64KiB)"}; const char *fn[] = {"qlog_write", "qlog_writef", "qlog_duplicate", "qlog_flush", "qlog_write", "qlog_write", "qlog_writef"}; for (int i = 0; i < 7; i++) ADD(LG_OPS, nm[i], fn[i], lg_op, i, 0); LG_NOPS = n; }
 
 /* =============================================================== engine */
 static subject_t SUBJ; static int TS;
@@ -414,7 +417,7 @@ static int setup_subject(const char *name) {
     else if (!strcmp(name, "qlist") || !strcmp(name, "qqueue") || !strcmp(name, "qstack") || !strcmp(name, "qgrow")) { L_KIND = !strcmp(name, "qlist") ? 0 : !strcmp(name, "qqueue") ? 1 : !strcmp(name, "qstack") ? 2 : 3; l_build(); SETS(name, L_KIND == 3 ? 4 : L_KIND == 0 ? 5 : 6, l_make, l_digest, l_destroy, l_mutex, l_lock, l_unlock, l_suffix, L_OPS, L_NOPS); if (L_KIND == 3) SUBJ.suffix = g_suffix; }
     else if (!strncmp(name, "qvector", 7)) { V_POL = name[7] ? atoi(name + 8) : 0; v_build(); SETS(name, 15, v_make, v_digest, v_destroy, v_mutex, v_lock, v_unlock, v_suffix, V_OPS, V_NOPS); }
     else if (!strcmp(name, "qhasharr")) { ha_build(); SETS("qhasharr", 4, ha_make, ha_digest, ha_destroy, ha_mutex, ha_nolock, ha_nolock, ha_suffix, HA_OPS, HA_NOPS); }
-    else if (!strcmp(name, "qlog")) { lg_build(); SETS("qlog", 1, lg_make, lg_digest, lg_destroy, lg_mutex, ha_nolock, ha_nolock, lg_suffix, LG_OPS, LG_NOPS); }
+    else if (!strcmp(name, "qlog")) { lg_build(); { FILE *f = fopen("/dev/full", "a"); lg_have_full = f != NULL; if (f) fclose(f); if (!lg_have_full) printf("NOTE\t/dev/full is not available: the I/O-error outcome of qlog write is not exercised\n"); } SETS("qlog", lg_have_full ? 3 : 1, lg_make, lg_digest, lg_destroy, lg_mutex, ha_nolock, ha_nolock, lg_suffix, LG_OPS, LG_NOPS); }
     else return -1;
     return 0;
 }
